@@ -37,16 +37,18 @@ type Step struct {
 
 // Scenario is one complete module-system life: Register…, Start, script, Shutdown.
 type Scenario struct {
-	ID         int       `json:"id"`
-	Family     string    `json:"family"`
-	FailPhase  string    `json:"fail_phase"` // none | prep | start | stop | mixed
-	Delays     string    `json:"delays"`
-	Mods       []ModSpec `json:"mods"` // in registration order
-	Mgmt       bool      `json:"mgmt"`
-	Notify     bool      `json:"notify,omitempty"` // register a change-notify function
-	InitEnable []string  `json:"init_enable,omitempty"`
-	Steps      []Step    `json:"steps,omitempty"`
-	Build      string    `json:"build"` // plain | race
+	ID          int       `json:"id"`
+	Family      string    `json:"family"`
+	FailPhase   string    `json:"fail_phase"` // none | prep | start | stop | mixed
+	Delays      string    `json:"delays"`
+	Mods        []ModSpec `json:"mods"` // in registration order
+	Mgmt        bool      `json:"mgmt"`
+	Notify      bool      `json:"notify,omitempty"`        // register a change-notify function
+	NilMid      string    `json:"nil_mid,omitempty"`       // module without stop function placed inside a dependency path
+	HookDelayUs int       `json:"hook_delay_us,omitempty"` // delay at modules.ctrlfn.done after a start routine returned
+	InitEnable  []string  `json:"init_enable,omitempty"`
+	Steps       []Step    `json:"steps,omitempty"`
+	Build       string    `json:"build"` // plain | race
 }
 
 var families = []string{"single", "chain", "fanin", "fanout", "diamond", "layered", "forest", "random"}
@@ -276,6 +278,50 @@ func genScenario(seed uint64, tier string, id int) Scenario {
 		ms.Start = mkBehav(i, "start")
 		ms.Stop = mkBehav(i, "stop")
 		mods[i] = ms
+	}
+	// a module without a stop (and sometimes start/prep) function in the middle of a
+	// dependency path, with slow-stopping dependents above it: whether such a module has
+	// "completely stopped" is decided through its status and through the modules above it
+	if n >= 3 && r.Chance(2, 5) {
+		var cand []int
+		hasRev := make([]bool, n)
+		for i := range deps {
+			for _, d := range deps[i] {
+				hasRev[d] = true
+			}
+		}
+		for i := 0; i < n; i++ {
+			if len(deps[i]) > 0 && hasRev[i] && !isFail(i, "stop") {
+				cand = append(cand, i)
+			}
+		}
+		if len(cand) > 0 {
+			mid := cand[r.Intn(len(cand))]
+			sc.NilMid = modName(mid)
+			mods[mid].Stop = Behav{Nil: true}
+			if r.Chance(1, 3) && !isFail(mid, "start") {
+				mods[mid].Start = Behav{Nil: true}
+			}
+			if r.Chance(1, 3) && !isFail(mid, "prep") {
+				mods[mid].Prep = Behav{Nil: true}
+			}
+			above := map[int]bool{mid: true}
+			for i := mid + 1; i < n; i++ { // dependencies always have smaller indices
+				for _, d := range deps[i] {
+					if above[d] {
+						above[i] = true
+					}
+				}
+				if above[i] && !mods[i].Stop.Nil {
+					mods[i].Stop.DelayUs = r.Range(3000, 15000)
+				}
+			}
+		}
+	}
+	// amplifier: hold the goroutine of a finished start routine at the
+	// modules.ctrlfn.done point for a while (see child.go)
+	if r.Chance(1, 4) {
+		sc.HookDelayUs = r.Range(1500, 4000)
 	}
 	vlib.Shuffle(r, mods) // registration order is arbitrary
 	sc.Mods = mods
